@@ -3,6 +3,7 @@ CONSTANTS
   MaxFlow = 2
   MaxOuts = 2
   MaxPuts = 1
+  MaxReconf = 0
   Tier = "boom"
 CONSTRAINT Emit
 INVARIANT DemuxAtMostOne
